@@ -1,7 +1,10 @@
-/-! Model of tracklib/core/obs_time.py (integer part; `ms` is carried separately).
-    `readUnixSec` mirrors `ObsTime.readUnixTime` with the year loop as repaired by D1
-    (`while elapsed - sec >= seconds_in(year)`), the 12-step month loop and the truncating divisions;
-    `toAbsSec` mirrors `ObsTime.toAbsTime`. -/
+/-! Model of tracklib/core/obs_time.py on integers (`ms` is carried separately).
+    `readUnixSec` mirrors `ObsTime.readUnixTime` on a whole number of seconds: the year loop
+    (`if elapsed_seconds - sec < sec_on_year: break`, the form it has since the repair of D1), the 12-step month
+    loop and the truncating divisions; `toAbsSec` mirrors `ObsTime.toAbsTime`.
+    The float path (fractional seconds, `ms = int(frac * 1000)`, `toAbsTime()` as a scalar, fractional and
+    negative amounts in `addSec`, `__sub__`) is `Model/ObsTimeG.lean`; `Props/C03.lean` proves that in exact
+    arithmetic it reduces to the definitions of this file. -/
 namespace TV.ObsTime
 
 def isLeap (y : Nat) : Bool := y % 4 == 0 && (y % 100 != 0 || y % 400 == 0)
@@ -84,7 +87,9 @@ def toAbsMs (t : Stamp) : Nat := toAbsSec t.d * 1000 + t.ms
 
 /-- `readUnixTime` on an instant given in integer milliseconds: the float code reads the whole
 seconds with the integer loops and `ms = int(frac*1000)`; on an exact millisecond count that is
-`t % 1000` (up to the float truncation, which the model does not exhibit). -/
+`t % 1000` in exact arithmetic (`TV.C03.readUnixG_toAbsG`). With IEEE doubles `toAbsTime()` of a non-zero
+millisecond may lie just below the millisecond and read back one lower: that is exhibited by `readUnixG`
+at `Float` (`Model/ObsTimeG.lean`), not by this integer model. -/
 def readUnixMs (t : Nat) : Stamp := ⟨readUnixSec (t / 1000), t % 1000⟩
 
 /-- field-wise `__lt__` including the final `ms` comparison -/
@@ -123,7 +128,8 @@ def leS (a b : Stamp) : Bool := !gtS a b
 def neS (a b : Stamp) : Bool := !eqS b a
 
 /-- `addSec nb` for a non-negative whole number of seconds (`addMin/addHour/addDay` pass
-`nb*60`, `nb*3600`, `nb*86400`): `readUnixTime (toAbsTime + nb)`. -/
+`nb*60`, `nb*3600`, `nb*86400`): `readUnixTime (toAbsTime + nb)`. Negative and fractional amounts:
+`addSecG` … `addDayG` in `Model/ObsTimeG.lean`. -/
 def addSec (t : Stamp) (nb : Nat) : Stamp := readUnixMs (toAbsMs t + nb * 1000)
 
 /-- Proleptic Gregorian day number (days since 1970-01-01) by the usual closed form
